@@ -137,6 +137,14 @@ func init() {
 		res = append(res, back(date.DefaultParser(string(fe), date.RuleDisableBasic)))
 		res = append(res, back(date.DefaultParser(reused(fe), date.RuleDisableBasic)))
 		e["back"] = res
+		// a caller that keeps one read buffer: this record, then the buffer refilled with the next
+		// record (the following day: the same length, other content) and parsed again
+		nt := time.Date(num(e["y"]), time.Month(num(e["m"])), num(e["d"])+1, 0, 0, 0, 0, time.UTC)
+		ny, nm, nd := nt.Date()
+		ntext := fmt.Sprintf("%04d-%02d-%02d", ny, int(nm), nd)
+		first := back(date.DefaultParser(reused(fe), 0))
+		second := back(date.DefaultParser(reused([]byte(ntext)), 0))
+		e["reuse"], e["nexttext"] = [][]int{first, second}, S(ntext)
 		return e
 	}
 
